@@ -117,13 +117,30 @@ cases.append(("C-FIND: invalid response (Status, no Message ID Being Responded T
               [(1, invalid(rsp_find(0xFF00, good))), (1, rsp_find(0xFF00, good)), (1, rsp_find(0x0000))], 1))
 cases.append(("C-GET: Pending, then an invalid response, then Success", "get", ImplicitVRLittleEndian,
               [(1, rsp_get(0xFF00)), (1, invalid(rsp_get(0xFF00))), (1, rsp_get(0x0000))], 2))
+# 0xB001 is a Warning - a final status - for every query model but Repository Query (PS3.4 C.6.4.4), where it ends the Pending run
+cases.append(("C-FIND (Patient Root): Pending, then Warning 0xB001 (final outside Repository Query), then a stray Success", "find", ImplicitVRLittleEndian,
+              [(1, rsp_find(0xFF00, good)), (1, rsp_find(0xB001)), (1, rsp_find(0x0000))], 2))
+cases.append(("C-FIND (Repository Query): Pending, 0xB001 (not final there), Success", "find-repo", ImplicitVRLittleEndian,
+              [(1, rsp_find(0xFF00, good)), (1, rsp_find(0xB001)), (1, rsp_find(0x0000))], 3))
+import inspect  # noqa: E402
 import logging  # noqa: E402
+from pynetdicom.sop_class import RepositoryQuery  # noqa: E402
+
+
+def find_iterator(a, ts, model):
+    """the wrapper is private: supply what it asks for by name (a wrapper that does not ask for the query model gets none)"""
+    names = [p for p in inspect.signature(a._wrap_find_responses).parameters]
+    have = {"transfer_syntax": ts, "query_model": model}
+    return a._wrap_find_responses(*[have[n] for n in names])
+
+
+
 logging.getLogger("pynetdicom").setLevel(logging.DEBUG)
 logging.getLogger("pynetdicom").addHandler(logging.NullHandler())
 logging.getLogger("pynetdicom").propagate = False
 for desc, which, ts, script, want in cases:
     a, log = mk_assoc(script)
-    gen = a._wrap_find_responses(ts, QM) if which == "find" else a._wrap_get_move_responses(ts)
+    gen = find_iterator(a, ts, RepositoryQuery if which == "find-repo" else QM) if which.startswith("find") else a._wrap_get_move_responses(ts)
     items, depths = [], []
     try:
         for x in gen:
